@@ -655,11 +655,13 @@ class Parser:
         t = self.peek()
         if t.kind == "punct" and t.text in ("!", "-", "*", "&"):
             self.i += 1
+            mutb = False
             if t.text == "&" and self.at("mut"):
-                if not self.tol:
-                    raise Unsupported("`&mut` borrow")
+                # strict mode (phase 7): only meaningful as `p = &mut p[a..]` on an out-slice parameter and as the
+                # argument `&mut buf` of a function with an out-slice parameter; elsewhere `&mut x` reads as `x`
                 self.i += 1
-            return N("un", op=t.text, e=self.unary(nostruct))
+                mutb = True
+            return N("un", op=t.text, e=self.unary(nostruct), mutb=mutb)
         if t.kind == "punct" and t.text == "&&":
             self.i += 1
             return N("un", op="&", e=N("un", op="&", e=self.unary(nostruct)))
@@ -1350,6 +1352,8 @@ class Checker:
         self.range_loops = []
         self.self_mode = None      # None | "flat" | "whole"
         self.untyped_bins = []
+        self.out_binding = None    # phase 7: the out-slice parameter and its "already passed" prefix
+        self.out_done = None
         self.opaque = []           # phase 6: type names kept abstract (`Hash`): Lean type parameters of the definition
         self.method_fns = {}       # phase 6: method name -> Binding of a function-valued parameter (trait-method calls)
 
@@ -1627,6 +1631,19 @@ class Checker:
             raise Unsupported("closure outside an iterator method argument")
         if k == "assert":
             unify(self.infer(e.c), "bool", "in `assert!`")
+            return "unit"
+        if k == "assign" and e.op == "=" and e.target.kind == "path" and len(e.target.path) == 1 \
+                and self.out_binding is not None and self.lookup(e.target.path[0]) is self.out_binding:
+            v = e.value
+            while v.kind == "paren":
+                v = v.e
+            if v.kind == "un" and v.op == "&" and getattr(v, "mutb", False):
+                v = v.e
+            if not (v.kind == "index" and v.i.kind == "range" and v.i.hi is None and v.i.lo is not None
+                    and v.e.kind == "path" and v.e.path == e.target.path):
+                raise Unsupported("assignment to the out-slice parameter that is not `p = &mut p[a..]`")
+            unify(self.infer(v.i.lo), "usize", "in slice bound")
+            e.kind, e.binding, e.done, e.n = "advance", self.out_binding, self.out_done, v.i.lo
             return "unit"
         if k == "assign":
             tgt = e.target
@@ -2010,6 +2027,16 @@ class Checker:
             e.res = ("fn", rec)
             if rec not in self.callees:
                 self.callees.append(rec)
+            if getattr(rec, "out_index", None) is not None:
+                a = args[rec.out_index]
+                while a.kind == "paren" or (a.kind == "un" and a.op == "&"):
+                    a = a.e
+                if a.kind != "path" or a.res[0] != "local" or a.res[1].kind not in ("local", "param") \
+                        or getattr(a.res[1], "byref", False):
+                    raise Unsupported(f"out-slice argument of `{n}` is not `&mut <local>`")
+                a.res[1].assigned = True
+                e.res = ("fnout", rec, a.res[1])
+                return "unit"
             return rec.ret
         # tuple-struct constructor of a record struct
         if len(segs) == 1 and n[0].isupper() and len(args) > 1:
@@ -2251,6 +2278,14 @@ class Checker:
             return "unit"
         if n == "reverse" and not args:
             e.res = ("reverse", local_recv())
+            return "unit"
+        if n == "copy_from_slice" and len(args) == 1 and base.kind == "index" and base.slice is not None \
+                and base.slice.lo is None and base.e.kind == "path" and base.e.res[0] == "local" \
+                and base.e.res[1].kind in ("local", "param") and not getattr(base.e.res[1], "byref", False):
+            # `p[..k].copy_from_slice(src)` / `p[..].copy_from_slice(src)`: overwrite a prefix of the local list
+            unify(self.infer(args[0]), prt, "in `copy_from_slice`")
+            base.e.res[1].assigned = True
+            e.res = ("copyprefix", base.e.res[1], base.slice.hi)
             return "unit"
         if n == "copy_from_slice" and len(args) == 1:
             unify(self.infer(args[0]), prt, "in `copy_from_slice`")
@@ -2642,6 +2677,14 @@ def assigned_in(n):
                 and x.res[1] not in out:
             out.append(x.res[1])
         if x.kind == "mcall" and getattr(x, "res", None) and x.res[0] == "mutmethod" and x.res[2] not in out:
+            out.append(x.res[2])
+        if x.kind == "mcall" and getattr(x, "res", None) and x.res[0] == "copyprefix" and x.res[1] not in out:
+            out.append(x.res[1])
+        if x.kind == "advance":
+            for b in (x.binding, x.done):
+                if b not in out:
+                    out.append(b)
+        if x.kind == "call" and getattr(x, "res", None) and x.res[0] == "fnout" and x.res[2] not in out:
             out.append(x.res[2])
     walk(n, f)
     return out
@@ -3407,6 +3450,29 @@ class Gen:
             return ctx.on_break()
         if k == "continue":
             return ctx.on_continue()
+        if k == "advance":
+            # `p = &mut p[n..]`: the first n elements are final
+            p_, d_ = e.binding, e.done
+            nv, pend, ok = self.EO(e.n)
+            ok = self.conj([ok, f"decide ({nv} ≤ List.length {p_.lean})"])
+            return self.binds([(d_.lean, f"{d_.lean} ++ List.take {P(nv)} {p_.lean}"), (p_.lean, f"List.drop {P(nv)} {p_.lean}")],
+                              ok, rest, ctx)
+        if k == "mcall" and e.res[0] == "copyprefix":
+            b, hi = e.res[1], e.res[2]
+            src, pend, ok = self.EO(e.args[0])
+            if hi is None:
+                ok = self.conj([ok, f"List.length {b.lean} == List.length {P(src)}"])
+                val = src
+            else:
+                hv = self.E(hi)
+                ok = self.conj([self.O(hi), ok, f"decide ({hv} ≤ List.length {b.lean})", f"List.length {P(src)} == {P(hv)}"])
+                val = f"{P(src)} ++ List.drop {P(hv)} {b.lean}"
+            return self.binds([(b.lean, val)] + [(pb.lean, v) for pb, v in pend], ok, rest, ctx)
+        if k == "call" and e.res[0] == "fnout":
+            rec, b = e.res[1], e.res[2]
+            args = [self.E(a) for a in e.args]
+            ok = self.conj([self.O(a) for a in e.args] + ([self.okapp(rec, [], args)] if rec.needs_ok else []))
+            return self.binds([(b.lean, self.app(rec, [], args))], ok, rest, ctx)
         if k == "assert":
             # `assert!(c)`: panics unless c — a conjunct of `_ok`, nothing in the value
             if ctx.mode == "ok":
@@ -3819,7 +3885,8 @@ class Gen:
                 d += [f"| {p} =>"] + indent(doc)
             d = paren_doc(d)
             return and_docs([os_] if os_ else None, d) if ctx.mode == "ok" else d
-        if k in ("while", "assign", "for", "continue", "break") or \
+        if (k == "if" and t.el is None) or k in ("while", "assign", "for", "continue", "break", "advance") or \
+                (k == "mcall" and t.res[0] == "copyprefix") or (k == "call" and t.res[0] == "fnout") or \
                 (k == "mcall" and t.res[0] in ("push", "reverse", "mutmethod", "copyfrom")) or \
                 (k == "match" and getattr(t, "iflet", False) and prune(t.ty) == "unit"):
             return self.stmt(t, ctx.on_end, ctx)
@@ -3831,7 +3898,7 @@ class Gen:
 # =============================================================================================
 
 class Entry:
-    def __init__(self, file, impl, fn, lean, out, fuel=None, note="", abstract=None, trait=None, rec_fuel=None, ret=None, opaque=None, fnparams=None):
+    def __init__(self, file, impl, fn, lean, out, fuel=None, note="", abstract=None, trait=None, rec_fuel=None, ret=None, opaque=None, fnparams=None, outparam=None):
         self.file, self.impl, self.fn, self.lean, self.out = file, impl, fn, lean, out
         self.fuel = fuel or {}
         self.note = note
@@ -3852,6 +3919,11 @@ class Entry:
         # code is assumed pure and deterministic (a function of its arguments), like `abstract=`.
         self.opaque = opaque or []
         self.fnparams = fnparams or []
+        # phase 7: name of a `mut p: &mut [T]` parameter of a unit function that is WRITTEN through and re-sliced
+        # (`p[..8].copy_from_slice(..)`, `p = &mut p[8..]`): the translation threads the remaining slice `p` and
+        # the already-passed prefix `p_done` and RETURNS the final buffer `p_done ++ p`; a call `f(.., &mut buf)`
+        # re-binds `buf`
+        self.outparam = outparam
         self.key = (file, impl, fn)
 
     @property
@@ -4038,6 +4110,9 @@ WHITELIST = [
                     ("call", "new_cuckaroom_ctx", "new_cuckaroom_ctx", "fn(u8, usize) -> Result<Ctx, Error>"),
                     ("call", "new_cuckarooz_ctx", "new_cuckarooz_ctx", "fn(u8, usize) -> Result<Ctx, Error>"),
                     ("call", "no_cuckaroo_ctx", "no_cuckaroo_ctx", "fn() -> Result<Ctx, Error>")]),
+    # phase 7: the write side of the nonce packing (`compressed` is written through and re-sliced)
+    Entry(POWT, None, "pack_bits", "pack_bits", "FnsPack", outparam="compressed"),
+    Entry(POWT, "Proof", "pack_nonces", "Proof_pack_nonces", "FnsPack"),
     Entry(CUCKATOO, "CuckatooContext", "verify_impl", "Cuckatoo_verify", "FnsVerify",
           fuel={3: VERIFY_FUEL, 4: VERIFY_FUEL}),
     Entry(CUCKAROOZ, "CuckaroozContext", "verify", "Cuckarooz_verify", "FnsVerify", trait="PoWContext",
@@ -4052,7 +4127,7 @@ OUT_OF_FILE = {PMMR: "FnsPmmr", CONS: "FnsCons", GLOB: "FnsCons", SEG: "FnsSeg",
                POWT: "FnsCons", SIP: "FnsPow", POWC: "FnsPow", LIBTX: "FnsTx", BMACC: "FnsBitmap", P2PMSG: "FnsMsg",
                CUCKAROO: "FnsVerify", CUCKAROOD: "FnsVerify", CUCKAROOM: "FnsVerify", CUCKAROOZ: "FnsVerify",
                CUCKATOO: "FnsVerify", PRUNE: "FnsPrune", TPOOL: "FnsCtx"}
-OUTS = ["FnsPmmr", "FnsCons", "FnsSeg", "FnsTx", "FnsPow", "FnsBitmap", "FnsVerify", "FnsPrune", "FnsCtx", "FnsBag"]
+OUTS = ["FnsPmmr", "FnsCons", "FnsSeg", "FnsTx", "FnsPow", "FnsBitmap", "FnsVerify", "FnsPrune", "FnsCtx", "FnsBag", "FnsPack"]
 TYPE_FILES = [PMMR, CONS, GLOB, SEG, TXS, BLK, POWT, SIP, POWC, LIBTX, BMACC, P2PMSG,
               CUCKAROO, CUCKAROOD, CUCKAROOM, CUCKAROOZ, CUCKATOO, PRUNE, TPOOL]
 
@@ -4441,7 +4516,7 @@ class World:
         if rec.self_mode == "flat" and entry.impl and not self.find_items("struct", entry.impl) \
                 and self.enum(entry.impl) is not None:
             rec.self_mode = "value"
-        if ast.ret is None and rec.self_mode != "whole":
+        if ast.ret is None and rec.self_mode != "whole" and not entry.outparam:
             raise Unsupported("function without a return value")
         chk.ret = chk.resolve_type(ast.ret) if ast.ret is not None else "unit"
         rec.ret = chk.ret
@@ -4454,11 +4529,26 @@ class World:
             selfb = chk.declare("self", ("struct", entry.impl), True, "param")
         if rec.self_mode == "value":
             rec.params.append(chk.declare("self", ("enum", entry.impl), False, "param"))
+        outb = doneb = None
+        rec.out_index = None
         for kind, name, mut, ty in ast.params:
             if kind == "param":
+                if entry.outparam == name:
+                    if ty[0] != "refmut" or not mut:
+                        raise Unsupported("out-slice parameter must be declared `mut p: &mut [T]`")
+                    outb = b = chk.declare(name, chk.resolve_type(ty[1]), True, "param")
+                    b.byref = False
+                    rec.out_index = len(rec.params)
+                    rec.params.append(b)
+                    continue
                 b = chk.declare(name, chk.resolve_type(ty), mut, "param")
                 b.byref = ty[0] == "ref"
                 rec.params.append(b)
+        if entry.outparam:
+            if outb is None or prune(chk.ret) != "unit":
+                raise Unsupported("out-slice parameter not found / function returns a value")
+            doneb = chk.declare(entry.outparam + "_done", outb.ty, True, "local")
+            chk.out_binding, chk.out_done = outb, doneb
         rec.fn_bindings = []
         for kind, text, pname, fty in entry.fnparams:
             m = re.fullmatch(r"\s*fn\s*\((.*)\)\s*->\s*(.*)", fty)
@@ -4534,6 +4624,11 @@ class World:
                 (lambda v: [f"({selfb.lean}, {g.E(v)})"] if v is not None else _no("`return` without a value")())
             vctx = Ctx("val", (lambda: [selfb.lean]) if unit else _no("function body ends without a value"),
                        _no("`break` outside a loop"), fin)
+        elif outb is not None:
+            lean_ret = outb.ty
+            fin_out = lambda: [f"{doneb.lean} ++ {outb.lean}"]
+            g.fin_text = lambda v: fin_out()[0]
+            vctx = Ctx("val", fin_out, _no("`break` outside a loop"), lambda v: fin_out())
         else:
             vctx = Ctx("val", _no("function body ends without a value"), _no("`break` outside a loop"),
                        lambda v: [g.E(v)] if v is not None else _no("`return` without a value")())
@@ -4541,9 +4636,13 @@ class World:
         if rec.is_recursive:
             rec.lean, rec.lean_ok, rec.needs_ok = f"{entry.lean}_fuel fuel", f"{entry.lean}_fuel_ok fuel", True
         body = g.seq(ast.body.items, 0, ast.body.tail, vctx)
+        if outb is not None:
+            body = let_doc(doneb.lean, ["[]"], body)
         octx = Ctx("ok", lambda: ["true"], _no("`break` outside a loop"),
                    lambda v: [(g.O(v) if v is not None else None) or "true"])
         okdoc = g.seq(ast.body.items, 0, ast.body.tail, octx)
+        if outb is not None and okdoc != ["true"]:
+            okdoc = let_doc(doneb.lean, ["[]"], okdoc)
         if g.pending:
             raise Unsupported("`next()` in a position where its effect on the iterator cannot be sequenced")
         rec.needs_ok = okdoc != ["true"] or rec.is_recursive
